@@ -56,6 +56,13 @@ def rnd_token(rng, depth=0):
             body = ' '.join(inner[:cut]) + rng.choice([' # one\n', ' # one\r', ' # one\r\n', ' #\n', ' # a # b\r', '#x\r']) + ' '.join(inner[cut:])
         if rng.random() < 0.1 and inner:
             body += ' # comment ] [ here\n'
+        if rng.random() < 0.08 and len(inner) >= 2 and not any(t.startswith('[') for t in inner):
+            # brackets inside a comment in the middle of a sub-script; a comment glued to the token before it
+            cut = rng.randrange(1, len(inner))
+            body = ' '.join(inner[:cut]) + rng.choice([' # ] \n', ' # [ \n', ' # ]] [ \r', '#]\n', '# x\n', '#[[\n']) + ' '.join(inner[cut:])
+        if rng.random() < 0.06 and inner:
+            # a comment glued to a closing bracket
+            body = '[' + inner[0] + ']' + rng.choice(['#ab\n', '# OP_3\n', '#\n']) + ' '.join(inner[1:])
         return '[' + body + ']'
     return 'OP_NOP'
 
@@ -89,6 +96,20 @@ def spread(rng, toks):
     return out
 
 
+def bracket_balance(text):
+    """opening minus closing brackets, not counting the ones inside comments (a comment runs to the end of its line)"""
+    depth = 0
+    comment = False
+    for ch in text:
+        if ch in '\n\r':
+            comment = False
+        elif ch == '#':
+            comment = True
+        if not comment:
+            depth += (ch == '[') - (ch == ']')
+    return depth
+
+
 def join_args(toks):
     """Value::parse_args' documented rule: a bracketed sub-script may be spread over several arguments - they are collected,
     joined by single blanks, until the brackets balance"""
@@ -96,10 +117,10 @@ def join_args(toks):
     for t in toks:
         if acc is not None:
             acc += ' ' + t
-            if acc.count('[') - acc.count(']') <= 0:
+            if bracket_balance(acc) <= 0:
                 joined.append(acc)
                 acc = None
-        elif t.startswith('[') and t.count('[') - t.count(']') > 0:
+        elif t.startswith('[') and bracket_balance(t) > 0:
             acc = t
         else:
             joined.append(t)
